@@ -147,12 +147,12 @@ func c13Ingest(seed int64, i int, sc c13Scenario, dir string, out *childOut) {
 		reached = waitParked(fn, "select", c13Watch)
 	case "idle-pipe":
 		if openW() {
-			reached = waitParked(fn, "IO wait", c13Watch)
+			reached = waitParked(fn, "IO wait|syscall", c13Watch)
 		}
 	case "mid-record":
 		if openW() {
 			w.WriteString("4242 Accepted password for partial li")
-			reached = waitParked(fn, "IO wait", c13Watch)
+			reached = waitParked(fn, "IO wait|syscall", c13Watch)
 		}
 	case "login-handoff-blocked":
 		if openW() {
@@ -184,7 +184,7 @@ func c13Ingest(seed int64, i int, sc c13Scenario, dir string, out *childOut) {
 			for atomic.LoadInt64(&delivered) < 5 && time.Now().Before(deadline) {
 				time.Sleep(100 * time.Microsecond)
 			}
-			reached = atomic.LoadInt64(&delivered) == 5 && waitParked(fn, "IO wait", c13Watch)
+			reached = atomic.LoadInt64(&delivered) == 5 && waitParked(fn, "IO wait|syscall", c13Watch)
 		}
 	}
 	if !reached {
@@ -211,6 +211,7 @@ func c13Ingest(seed int64, i int, sc c13Scenario, dir string, out *childOut) {
 			stuckSeen[sc.Worker+"/"+sc.State]++
 			out.violation(sig+":stuck-after-cancel", fmt.Sprintf("worker still parked %s after cancel: %s", c13Watch, why), wit)
 		} else {
+			stuckSeen[sc.Worker+"/"+sc.State]++
 			out.inconclusive(sig + ": no return within the watchdog but worker not parked: " + why)
 		}
 		// un-stick so that later scenarios do not see this goroutine
